@@ -440,7 +440,7 @@ def cmd_selfcheck_driver(names):
     ours = kanitrack.run_many(metas, os.path.join(CACHE, "run", "selfcheck"), 1800)
     tgt = os.environ.get("VERIF_DRIVER_TARGET", os.path.join(CACHE, "kani-driver-target"))
     args = ["--target-dir", tgt, "--no-default-features", "--features", KANI_FEATURES, "-Z", "function-contracts", "-Z", "stubbing",
-            "--exact", "-j", "6", "--output-format", "regular"]
+            "--exact", "--output-format", "regular"]   # (`-j` would force the terse format, which does not list the checks)
     for m in metas:
         args += ["--harness", m["pretty_name"]]
     rc, so, se, secs = run(["cargo", "kani"] + args, cwd=CRATE, env=kanitrack.kani_env(), timeout=6 * 3600)
